@@ -682,13 +682,19 @@ func (g *gen) arg(t Ty) uint64 {
 
 // ---------------------------------------------------------------- script
 
-func genScriptWith(t *rapid.T, maxStmts int) Script {
+func genScriptWith(t *rapid.T, maxStmts int) Script { return genScriptN(t, maxStmts, -1) }
+
+// genScriptN: forceParams >= 0 fixes the number of parameters.
+func genScriptN(t *rapid.T, maxStmts int, forceParams int) Script {
 	g := &gen{t: t, avoid: avoidSet(), cnt: map[string]int{}}
 	var sc Script
 	for i, n := 0, 1+g.intn(3, "palette-n"); i < n; i++ {
 		g.palette = append(g.palette, Ty(g.intn(int(nTy), "palette-ty")))
 	}
 	np := []int{1, 2, 2, 3, 1, 2, 0, 3}[g.intn(8, "nparams")]
+	if forceParams >= 0 {
+		np = forceParams
+	}
 	for i := 0; i < np; i++ {
 		p := Param{N: string(rune('a' + i)), T: g.ty("param-ty")}
 		sc.Params = append(sc.Params, p)
